@@ -105,8 +105,14 @@ def header_paths(prog, pv, b, input_param=1, limit=4000):
                     return d.rv["op"].int_value()
         return None
 
-    def byte_index(pl):
+    def byte_index(pl, _d=0):
         es = [e for e in pl.fields() if e != "*"]
+        if not es and pl.proj and _d < 3:
+            # `*r` with `r = &input[3]` (a byte bound by a slice pattern and matched afterwards)
+            ds = pv.defs(b).get(pl.local, [])
+            if len(ds) == 1 and ds[0][0] == "assign" and ds[0][2].rv["k"] == "ref":
+                return byte_index(ds[0][2].rv["place"], _d + 1)
+            return None
         if len(es) != 1 or not is_input(pl.local):
             return None
         if es[0][0] == "cidx":
